@@ -21,6 +21,7 @@ import (
 	"strconv"
 	"strings"
 	"sync"
+	"sync/atomic"
 	"time"
 
 	"github.com/fsnotify/fsnotify"
@@ -242,8 +243,9 @@ func runMem(id int, sc Scenario, inits []InitDef, seed int64) Rec {
 	}()
 	select {
 	case <-rd.InitFilesDone():
-	case <-time.After(5 * time.Second):
+	case <-patience():
 		rec.Stuck = true
+		stuckSeen.Add(1)
 		rec.Err = "initial files not read within 5 s"
 		return rec
 	}
@@ -251,13 +253,14 @@ func runMem(id int, sc Scenario, inits []InitDef, seed int64) Rec {
 		select {
 		case events <- fsnotify.Event{Name: name, Op: op}:
 			return true
-		case <-time.After(5 * time.Second):
+		case <-patience():
 			return false
 		}
 	}
 	barrier := func() bool { return send(filepath.Join(dir, ".verif-barrier"), fsnotify.Chmod) }
 	if !barrier() {
 		rec.Stuck = true
+		stuckSeen.Add(1)
 		return rec
 	}
 	mut := func(f func()) {
@@ -297,6 +300,7 @@ func runMem(id int, sc Scenario, inits []InitDef, seed int64) Rec {
 		}
 		if !ok || !barrier() {
 			rec.Stuck = true
+			stuckSeen.Add(1)
 			rec.Err = "the reader did not take the event within 5 s (op " + op.Op + ")"
 			break
 		}
@@ -360,8 +364,9 @@ func runReal(id int, sc Scenario, inits []InitDef, seed int64, base string) Rec 
 			got = append(got, l)
 		case <-rd.InitFilesDone():
 			done = true
-		case <-time.After(5 * time.Second):
+		case <-patience():
 			rec.Stuck = true
+			stuckSeen.Add(1)
 			done = true
 		}
 	}
@@ -370,6 +375,18 @@ func runReal(id int, sc Scenario, inits []InitDef, seed int64, base string) Rec 
 		rec.Delivered = append(rec.Delivered, w.tokOf(l))
 	}
 	return rec
+}
+
+// patience: how long to wait for the reader to take an event / finish its initial read.  A reader that got stuck is
+// reported by the scenario; once that has been seen a few times the (generous) wait is shortened so that a broken
+// tree does not cost hours.
+var stuckSeen atomic.Int64
+
+func patience() <-chan time.Time {
+	if stuckSeen.Load() > 6 {
+		return time.After(200 * time.Millisecond)
+	}
+	return time.After(5 * time.Second)
 }
 
 func main() {
